@@ -8,6 +8,8 @@ class Base:
     idx = -1
 
     def __init__(self, f0: Any = None, f1: Any = None, f2: Any = None, f3: Any = None, own: int = 1):
+        if own == 13:
+            raise RuntimeError("unlucky constructor argument (deliberate failure of a sink component)")
         self.kw = dict(f0=f0, f1=f1, f2=f2, f3=f3, own=own)
         self.attr = own * 10 + self.idx
         LOG.append((type(self).__name__, id(self), self))
